@@ -385,7 +385,7 @@ func runHTTP(cfg *runCfg, prop string) error {
 				ran = append(ran, coqBool(b))
 			}
 			obsTerm := fmt.Sprintf("{| ob_panic := %s; ob_status := %d; ob_body := %s; ob_ran := [%s] |}", coqBool(o18.Panic != ""), o18.Status, bodyObs, strings.Join(ran, "; "))
-			c.Printf("Eval vm_compute in (%d%%nat, true, c15_holds (RPostJSON %s (Some (JObj []))) %s).\n", id, c.S("application/json"), obsTerm)
+			c.Printf("Eval vm_compute in (\"%d\"%%string, true, c15_holds (RPostJSON %s (Some (JObj []))) %s).\n", id, c.S("application/json"), obsTerm)
 			key, _ := json.Marshal(in)
 			doc.Cases = append(doc.Cases, CaseInfo{ID: id, Kind: "multipart", Input: map[string]interface{}{"multipart": in}, Observed: o18, Nontrivial: true, Key: "mp" + string(key)})
 			doc.Dist["kind:multipart"]++
@@ -613,6 +613,9 @@ func runHTTP(cfg *runCfg, prop string) error {
 			opList = []interface{}{m}
 		}
 		runNames := opNames(opList, names)
+		crumb := *cs
+		crumb.Req = *rq
+		cfg.Crumb(kind, &crumb)
 		// single-operation baselines (also the outcomes handed to the model)
 		singles := []hObs{}
 		for _, o := range opList {
@@ -699,7 +702,7 @@ func runHTTP(cfg *runCfg, prop string) error {
 			rawTerm := fmt.Sprintf("{| ob_panic := %s; ob_status := %d; ob_body := %s; ob_ran := [%s] |}", coqBool(obs.Panic != ""), obs.Status, rawObs, strings.Join(ran, "; "))
 			oracle = fmt.Sprintf("c16_holds [%s] %s", strings.Join(singleBodies, "; "), rawTerm)
 		}
-		c.Printf("Eval vm_compute in (%d%%nat, model_agrees %s [%s] %s, %s).\n", id, reqTerm, strings.Join(outs, "; "), obsTerm, oracle)
+		c.Printf("Eval vm_compute in (\"%d\"%%string, model_agrees %s [%s] %s, %s).\n", id, reqTerm, strings.Join(outs, "; "), obsTerm, oracle)
 		key, _ := json.Marshal(cs)
 		doc.Cases = append(doc.Cases, CaseInfo{ID: id, Kind: kind, Input: cs, Observed: obs,
 			Nontrivial: len(opList) >= 2 || kind == "post-malformed" || kind == "get", Key: string(key)})
